@@ -202,7 +202,9 @@ def db_strings(payload):
         cands = exact.get(s) or var.get(s)
         eds = sorted(cands)
         out.append({"string": s, "is_exact": s in exact, "editions": eds,
-                    "canon": eds[0].split("#", 2)[2] if len(eds) == 1 else None})
+                    "canon": eds[0].split("#", 2)[2] if len(eds) == 1 else None,
+                    # editions the string ALSO names as a variation although it is an edition name (exact names win)
+                    "others": sorted(var.get(s, set()) - set(eds)) if s in exact else []})
     years = {}
     for key, cluster in REPORTERS.items():
         for ri, src in enumerate(cluster):
